@@ -9,6 +9,7 @@ def opcodeTypes : Nat := 100
 def refFields : List (String × String × String × Bool) := [
   ("Cmpr", "pipeline", "pointer", false),
   ("Cmprlt", "pipeline", "pointer", false),
+  ("FXP", "phase", "pointer", true),
   ("FloPoCo", "entities", "slice", false)
 ]
 
